@@ -9,17 +9,22 @@ pub mod h4 {
    ascent! {
       pub struct Prog;
       relation r0(i64, i64, i64);
-      relation r1(i64, i64, i64);
+      relation r1(i64, i64);
       relation r2(i64, i64);
-      relation r3(i64);
+      relation r3(i64, i64);
       relation r4(i64, i64);
-      r1(v1, v0, 0) <-- r0(v0, v1, v2);
-      r2(v1, v2) <-- r1(v0, v1, 0), r1(((*v0) + 1), v1, v2) if ((*v1) < 4);
-      r3((v1 + 1)) <-- for v0 in [1, 0, 4], r2(v0, 2) if (v0 <= 4), let v1 = (v0 + 2), if (v1 < 6);
-      r4(0, 3) <-- r3(0);
-      r1(v0, v1, v2) <-- r2(v0, v1), r4(((*v0) + 1), v2);
-      r3(2) <-- r1(v0, v1, v2), r0(((*v0) + 1), v3, 0);
-      r4(v2, v4) <-- let v0 = 1, r4(v1, v2) if ((*v1) != 6) let v3 = ((*v1) + 1), if let Some(v4) = Some(v0), r2((v4 + 1), v5);
+      relation r5(i64, i64, i64);
+      r1(v1, v2) <-- if let Some(v0) = Some(3), r0(v0, v1, v2), r3(v3, v1);
+      r2(3, v0) <-- r1(v0, v1) if ((*v0) <= 3);
+      r3(v0, 3) <-- r2(v0, 1), r2(v0, v0);
+      r4(3, v0) <-- for v0 in 0..4, r3(v1, 1), r5(v0, v1, v1);
+      r5(v3, v3, (v4 + 1)) <-- r4(v0, v1), r4(v2, v3) if ((*v0) <= 3) let v4 = ((*v1) + 0), let v5 = std::cmp::max((*v2), 3), if (v4 < 6);
+      r4(v0, v1) <-- r2(v0, v1) if ((*v0) < 2), r1(v1, v2) if ((*v2) != (*v1));
+      r2(v0, v1) <-- r3(v0, v1), r1(v0, v0), r3(v1, v2);
+      r4(v0, v0) <-- if let Some(v0) = Some(1);
+      r2(v0, v0) <-- let v0 = 4;
+      r1(v0, v0) <-- if let Some(v0) = Some(4), r5(v0, 1, v1), if ((*v1) < 1), r4(0, 3);
+      r1((v4 + 1), v3) <-- if let Some(v0) = Some(1), r1(v1, v2), r5(v2, 2, v1) if ((*v1) <= 4), r5(3, v3, v1) if ((*v1) < 3) let v4 = ((*v3) + 0), if (v4 < 6);
    }
    pub struct Inst { p: Prog, pool: Option<ascent::rayon::ThreadPool> }
    pub fn make(pool: Option<usize>) -> Box<dyn Driver> {
@@ -31,60 +36,11 @@ pub mod h4 {
       fn load(&mut self, rel: usize, rows: &[Sexp], append: bool) -> Option<()> {
          match rel {
          0 => { let v: Vec<(i64,i64,i64,)> = parse_rows(rows)?; if append { self.p.r0.extend(v) } else { self.p.r0 = v } },
-         1 => { let v: Vec<(i64,i64,i64,)> = parse_rows(rows)?; if append { self.p.r1.extend(v) } else { self.p.r1 = v } },
-         2 => { let v: Vec<(i64,i64,)> = parse_rows(rows)?; if append { self.p.r2.extend(v) } else { self.p.r2 = v } },
-         3 => { let v: Vec<(i64,)> = parse_rows(rows)?; if append { self.p.r3.extend(v) } else { self.p.r3 = v } },
-         4 => { let v: Vec<(i64,i64,)> = parse_rows(rows)?; if append { self.p.r4.extend(v) } else { self.p.r4 = v } },
-            _ => return None,
-         }
-         Some(())
-      }
-      fn run(&mut self) { match &self.pool { Some(pl) => { let p = &mut self.p; pl.install(|| p.run()) }, None => self.p.run() } }
-      fn run_here(&mut self) { self.p.run() }
-      fn run_timeout(&mut self, k: usize) -> Option<bool> { let _ = k; None }
-      fn dump(&self) -> String { vec![dump_rel(0, self.p.r0.iter().map(Row::render).collect()), dump_rel(1, self.p.r1.iter().map(Row::render).collect()), dump_rel(2, self.p.r2.iter().map(Row::render).collect()), dump_rel(3, self.p.r3.iter().map(Row::render).collect()), dump_rel(4, self.p.r4.iter().map(Row::render).collect())].join(" | ") }
-      fn iters(&self) -> String { format!("iters {}", self.p.scc_iters.iter().map(|x| x.to_string()).collect::<Vec<_>>().join(" ")) }
-   }
-}
-
-#[allow(unused, non_snake_case, clippy::all)]
-pub mod h12 {
-   use ascent::*;
-   use ascent::aggregators::*;
-   use ascent::lattice::{Dual, set::Set};
-   use crate::common::*;
-   ascent! {
-      pub struct Prog;
-      relation r0(i64, i64);
-      relation r1(i64);
-      relation r2(i64, i64);
-      relation r3(i64, i64);
-      relation r4(i64, i64);
-      relation r5(i64, i64);
-      r1(v2) <-- if let Some(v0) = Some(3), r0(v0, v1), let v2 = ((*v1) + 1);
-      r2(v0, v0) <-- if let Some(v0) = None::<i64>, r1(v0), r0((v0 + 1), v0);
-      r3(v0, v0) <-- r2(2, v0), r1(v0);
-      r4(((*v0) + 1), v0) <-- r3(2, v0), r2(v0, v0), if ((*v0) < 6);
-      r5(v2, ((*v1) + 1)) <-- r4(v0, v1), r2(((*v0) + 0), v2), if ((*v1) < 6);
-      r5(v0, v1) <-- for v9 in 0..2, r3(v0, v1), r0(v9, v1);
-      r4(v0, v8) <-- if let Some(v9) = Some(3), r4(v0, v1), r5(v1, v9) let v8 = ((*v0) + 1);
-      r4(((*v0) + 1), v2) <-- r4(v0, v1), r5(0, v2), r0(v0, v3), if ((*v0) < 6);
-   }
-   pub struct Inst { p: Prog, pool: Option<ascent::rayon::ThreadPool> }
-   pub fn make(pool: Option<usize>) -> Box<dyn Driver> {
-      let pool = pool.map(|n| ascent::rayon::ThreadPoolBuilder::new().num_threads(n).build().unwrap());
-      let p = match &pool { Some(pl) => pl.install(|| Default::default()), None => Default::default() };
-      Box::new(Inst { p, pool })
-   }
-   impl Driver for Inst {
-      fn load(&mut self, rel: usize, rows: &[Sexp], append: bool) -> Option<()> {
-         match rel {
-         0 => { let v: Vec<(i64,i64,)> = parse_rows(rows)?; if append { self.p.r0.extend(v) } else { self.p.r0 = v } },
-         1 => { let v: Vec<(i64,)> = parse_rows(rows)?; if append { self.p.r1.extend(v) } else { self.p.r1 = v } },
+         1 => { let v: Vec<(i64,i64,)> = parse_rows(rows)?; if append { self.p.r1.extend(v) } else { self.p.r1 = v } },
          2 => { let v: Vec<(i64,i64,)> = parse_rows(rows)?; if append { self.p.r2.extend(v) } else { self.p.r2 = v } },
          3 => { let v: Vec<(i64,i64,)> = parse_rows(rows)?; if append { self.p.r3.extend(v) } else { self.p.r3 = v } },
          4 => { let v: Vec<(i64,i64,)> = parse_rows(rows)?; if append { self.p.r4.extend(v) } else { self.p.r4 = v } },
-         5 => { let v: Vec<(i64,i64,)> = parse_rows(rows)?; if append { self.p.r5.extend(v) } else { self.p.r5 = v } },
+         5 => { let v: Vec<(i64,i64,i64,)> = parse_rows(rows)?; if append { self.p.r5.extend(v) } else { self.p.r5 = v } },
             _ => return None,
          }
          Some(())
@@ -98,7 +54,7 @@ pub mod h12 {
 }
 
 #[allow(unused, non_snake_case, clippy::all)]
-pub mod ha2 {
+pub mod h12 {
    use ascent::*;
    use ascent::aggregators::*;
    use ascent::lattice::{Dual, set::Set};
@@ -107,27 +63,15 @@ pub mod ha2 {
       pub struct Prog;
       relation r0(i64, i64);
       relation r1(i64, i64);
-      relation r2(i64);
-      relation r3(i64);
+      relation r2(i64, i64);
+      relation r3(i64, i64);
       relation r4(i64);
-      relation r5(i64, i64);
-      relation r6(i64, i64);
-      relation r7(i64);
-      relation r8(i64);
-      r2(v2) <-- r0(v0, v1), if let Some(v2) = Some((*v1));
-      r3(v1) <-- r2(v0) if ((*v0) < 2), if ((*v0) != 4), r3(v1);
-      r2(1) <-- r3(v0);
-      r2(v0) <-- r1(v0, v1) if ((*v0) < 2), r1(v1, v2) if ((*v2) != (*v1));
-      r2(v0) <-- if let Some(v9) = Some(1), r1(v0, v1), r0(v1, v9) let v8 = ((*v0) + 1);
-      r0(v1, v1) <-- r0(0, v0), r2(v1);
-      r3(v0) <-- let v0 = 2;
-      r1(v0, v0) <-- if let Some(v0) = None::<i64>;
-      r3(v2) <-- r0(v0, v1), for v2 in 2..3, r1(1, v1) if ((*v1) != 5), if let Some(v3) = Some((*v1));
-      r4(v0) <-- r0(v0, v1), agg v21 = max(v20) in r0(1, v20);
-      r5(v0, (v21 as i64)) <-- r2(v0), agg v21 = count() in r2((*v0));
-      r6(v0, v21) <-- r2(v0), r2(v0), agg v21 = min(v20) in r3(v20);
-      r7(v0) <-- r2(v0), agg v21 = count() in r1((*v0), 3);
-      r8(v0) <-- r2(v0), r2(v0), agg v21 = sum(v20) in r4(v20);
+      r4(v0) <-- r0(v0, v1), r3(v1, v2), r3(v2, v3);
+      r4(v0) <-- r3(v0, v1), r0(v0, v0), r3(v1, v2);
+      r3(0, v0) <-- r3(0, 2), r4(v0), r3(v1, ((*v0) + 1));
+      r4(((*v0) + 1)) <-- r2(3, v0) if ((*v0) <= 1), if ((*v0) < 6);
+      r4(v1) <-- r2(v0, v1), for v2 in 0..3, r1(v1, v2);
+      r2(1, 0) <-- r4(0);
    }
    pub struct Inst { p: Prog, pool: Option<ascent::rayon::ThreadPool> }
    pub fn make(pool: Option<usize>) -> Box<dyn Driver> {
@@ -140,13 +84,9 @@ pub mod ha2 {
          match rel {
          0 => { let v: Vec<(i64,i64,)> = parse_rows(rows)?; if append { self.p.r0.extend(v) } else { self.p.r0 = v } },
          1 => { let v: Vec<(i64,i64,)> = parse_rows(rows)?; if append { self.p.r1.extend(v) } else { self.p.r1 = v } },
-         2 => { let v: Vec<(i64,)> = parse_rows(rows)?; if append { self.p.r2.extend(v) } else { self.p.r2 = v } },
-         3 => { let v: Vec<(i64,)> = parse_rows(rows)?; if append { self.p.r3.extend(v) } else { self.p.r3 = v } },
+         2 => { let v: Vec<(i64,i64,)> = parse_rows(rows)?; if append { self.p.r2.extend(v) } else { self.p.r2 = v } },
+         3 => { let v: Vec<(i64,i64,)> = parse_rows(rows)?; if append { self.p.r3.extend(v) } else { self.p.r3 = v } },
          4 => { let v: Vec<(i64,)> = parse_rows(rows)?; if append { self.p.r4.extend(v) } else { self.p.r4 = v } },
-         5 => { let v: Vec<(i64,i64,)> = parse_rows(rows)?; if append { self.p.r5.extend(v) } else { self.p.r5 = v } },
-         6 => { let v: Vec<(i64,i64,)> = parse_rows(rows)?; if append { self.p.r6.extend(v) } else { self.p.r6 = v } },
-         7 => { let v: Vec<(i64,)> = parse_rows(rows)?; if append { self.p.r7.extend(v) } else { self.p.r7 = v } },
-         8 => { let v: Vec<(i64,)> = parse_rows(rows)?; if append { self.p.r8.extend(v) } else { self.p.r8 = v } },
             _ => return None,
          }
          Some(())
@@ -154,11 +94,56 @@ pub mod ha2 {
       fn run(&mut self) { match &self.pool { Some(pl) => { let p = &mut self.p; pl.install(|| p.run()) }, None => self.p.run() } }
       fn run_here(&mut self) { self.p.run() }
       fn run_timeout(&mut self, k: usize) -> Option<bool> { let _ = k; None }
-      fn dump(&self) -> String { vec![dump_rel(0, self.p.r0.iter().map(Row::render).collect()), dump_rel(1, self.p.r1.iter().map(Row::render).collect()), dump_rel(2, self.p.r2.iter().map(Row::render).collect()), dump_rel(3, self.p.r3.iter().map(Row::render).collect()), dump_rel(4, self.p.r4.iter().map(Row::render).collect()), dump_rel(5, self.p.r5.iter().map(Row::render).collect()), dump_rel(6, self.p.r6.iter().map(Row::render).collect()), dump_rel(7, self.p.r7.iter().map(Row::render).collect()), dump_rel(8, self.p.r8.iter().map(Row::render).collect())].join(" | ") }
+      fn dump(&self) -> String { vec![dump_rel(0, self.p.r0.iter().map(Row::render).collect()), dump_rel(1, self.p.r1.iter().map(Row::render).collect()), dump_rel(2, self.p.r2.iter().map(Row::render).collect()), dump_rel(3, self.p.r3.iter().map(Row::render).collect()), dump_rel(4, self.p.r4.iter().map(Row::render).collect())].join(" | ") }
+      fn iters(&self) -> String { format!("iters {}", self.p.scc_iters.iter().map(|x| x.to_string()).collect::<Vec<_>>().join(" ")) }
+   }
+}
+
+#[allow(unused, non_snake_case, clippy::all)]
+pub mod hl2 {
+   use ascent::*;
+   use ascent::aggregators::*;
+   use ascent::lattice::{Dual, set::Set};
+   use crate::common::*;
+   ascent! {
+      pub struct Prog;
+      relation r0(i64, i64, i64);
+      relation r1(i64, i64, i64);
+      relation r2(i64);
+      lattice r3(i64, i64, Option<i64>);
+      lattice r4(i64, i64, i64);
+      r3(v2, 1, Some((*v0))) <-- r0(v0, v1, v2);
+      r3(v1, v1, None) <-- r3(v0, v1, v2) if ((*v0) < 6), r1(v0, v0, v3);
+      r4(v0, v1, (*v2)) <-- r0(v0, v1, v2);
+      r3(v1, v0, Some(0)) <-- r4(v0, v1, v2);
+      r1(v0, v3, v0) <-- r1(v0, v0, v1), r1(v0, v2, v3);
+   }
+   pub struct Inst { p: Prog, pool: Option<ascent::rayon::ThreadPool> }
+   pub fn make(pool: Option<usize>) -> Box<dyn Driver> {
+      let pool = pool.map(|n| ascent::rayon::ThreadPoolBuilder::new().num_threads(n).build().unwrap());
+      let p = match &pool { Some(pl) => pl.install(|| Default::default()), None => Default::default() };
+      Box::new(Inst { p, pool })
+   }
+   impl Driver for Inst {
+      fn load(&mut self, rel: usize, rows: &[Sexp], append: bool) -> Option<()> {
+         match rel {
+         0 => { let v: Vec<(i64,i64,i64,)> = parse_rows(rows)?; if append { self.p.r0.extend(v) } else { self.p.r0 = v } },
+         1 => { let v: Vec<(i64,i64,i64,)> = parse_rows(rows)?; if append { self.p.r1.extend(v) } else { self.p.r1 = v } },
+         2 => { let v: Vec<(i64,)> = parse_rows(rows)?; if append { self.p.r2.extend(v) } else { self.p.r2 = v } },
+         3 => { let v: Vec<(i64,i64,Option<i64>,)> = parse_rows(rows)?; if append { self.p.r3.extend(v) } else { self.p.r3 = v } },
+         4 => { let v: Vec<(i64,i64,i64,)> = parse_rows(rows)?; if append { self.p.r4.extend(v) } else { self.p.r4 = v } },
+            _ => return None,
+         }
+         Some(())
+      }
+      fn run(&mut self) { match &self.pool { Some(pl) => { let p = &mut self.p; pl.install(|| p.run()) }, None => self.p.run() } }
+      fn run_here(&mut self) { self.p.run() }
+      fn run_timeout(&mut self, k: usize) -> Option<bool> { let _ = k; None }
+      fn dump(&self) -> String { vec![dump_rel(0, self.p.r0.iter().map(Row::render).collect()), dump_rel(1, self.p.r1.iter().map(Row::render).collect()), dump_rel(2, self.p.r2.iter().map(Row::render).collect()), dump_rel(3, self.p.r3.iter().map(Row::render).collect()), dump_rel(4, self.p.r4.iter().map(Row::render).collect())].join(" | ") }
       fn iters(&self) -> String { format!("iters {}", self.p.scc_iters.iter().map(|x| x.to_string()).collect::<Vec<_>>().join(" ")) }
    }
 }
 
 fn main() {
-   common::main_loop(&[("h4", h4::make as common::Factory), ("h12", h12::make as common::Factory), ("ha2", ha2::make as common::Factory)]);
+   common::main_loop(&[("h4", h4::make as common::Factory), ("h12", h12::make as common::Factory), ("hl2", hl2::make as common::Factory)]);
 }
